@@ -209,12 +209,13 @@ Fixpoint hkey_of (p : prop) : hkey :=
   | Var i lo hi => HVar i (bsum lo hi)
   | Node _ i _ lo hi s v ch => HNode i (bsum lo hi) s (pyhash v) (map hkey_of ch)
   end.
-(* __eq__ : variable compares ids; AtLeast compares class, id, equation bounds and value *)
+(* __eq__ : variable compares ids; AtLeast compares class (type(self) == type(other)), id, equation
+   bounds and value *)
 Definition pyeq (a b : prop) : bool :=
   match a, b with
   | Var i _ _, Var j _ _ => String.eqb i j
-  | Node _ i _ _ _ _ v _, Node _ j _ _ _ _ v' _ =>
-      String.eqb i j && bounds_eqb (equation_bounds a) (equation_bounds b) && (v =? v')
+  | Node m i _ _ _ _ v _, Node m' j _ _ _ _ v' _ =>
+      cls_eqb (m_cls m) (m_cls m') && String.eqb i j && bounds_eqb (equation_bounds a) (equation_bounds b) && (v =? v')
   | _, _ => false
   end.
 Definition same_elt (a b : prop) : bool := hkey_eqb (hkey_of a) (hkey_of b) && pyeq a b.
